@@ -14,7 +14,7 @@ RULE = ("Mode G: edge plog.from_b64(x.to_b64()) (applied twice) from EVERY valid
         "attribute of every reachable object: classes, ids, bounds, generated flags, signs, values, defaults, prios; matrix, dtype, "
         "variables incl. their classes, row index, default priority vector) and identical observations for the query menu on both sides "
         "(evaluate on all assignments, evaluate_propositions, to_text, to_json, errors, to_ge_polyhedron, negate, reduce; select with the same "
-        "exact solver over the priority alphabet, with and without only_leafs). non-trivial = distinct state with compound children or defaults")
+        "exact solver over the priority alphabet, with and without only_leafs). Plus: every configurator polyhedron unpacked a second time after the first result was overwritten in place; a size ladder of unpacked 1 KiB .. 16 MiB. non-trivial = distinct state with compound children or defaults")
 ASSUMPTIONS = ["pickle/gzip/base64 of the standard library are trusted", "caches are cleared per case (C09 owns cache state)"]
 BOUNDS = {"quick": "abc explicit/generated, at explicit, fixed/ab, diamonds explicit, conn2/ab generated, conn1s/abc; all 1..2-rule configurators",
           "thorough": "quick + abt, abct, conn2/abc generated/explicit, closure/ab, 3-rule configurators"}
